@@ -537,6 +537,13 @@ fn walk_fields_to_definition(
         current = lookup_field_in_shape(&current, f)?;
     }
     let pos = lookup_field_definition(&current, &fields[fields.len() - 1])?;
+    // The shape of a binding that was initialized from an import carries the
+    // positions of the imported file.
+    let uri = pos
+        .file
+        .as_ref()
+        .and_then(|p| Url::from_file_path(p).ok())
+        .unwrap_or(uri);
     Some(Location {
         uri,
         range: ucg_pos_to_range(&pos),
